@@ -15,6 +15,8 @@ from pathlib import Path
 
 BASE = json.load(open("/root/.vp/BASELINE.json"))["stable_pass"]
 RUN_TESTS = "--no-tests" not in sys.argv
+SEED_OUT = os.environ.get("SEED_OUT", "seed_out")
+PREFIX = os.environ.get("SEED_PREFIX", "")
 
 
 def sh(cmd, cwd=None, env=None, timeout=1500):
@@ -27,8 +29,10 @@ def sh(cmd, cwd=None, env=None, timeout=1500):
 def one(wt: Path):
     res = []
     pid = wt.name
-    for sd in sorted((wt / "seed_out").glob("s*")):
-        r = {"property": pid, "seed": sd.name}
+    for sd in sorted((wt / SEED_OUT).glob("s*")):
+        if not (sd / "patch.diff").exists() or not (sd / "demo.py").exists() or not (sd / "meta.json").exists():
+            continue
+        r = {"property": pid, "seed": PREFIX + sd.name, "dir": str(sd)}
         try:
             r["meta"] = json.load(open(sd / "meta.json"))
         except Exception as e:
@@ -47,7 +51,7 @@ def one(wt: Path):
         r["demo_patched_rc"] = rc1
         r["demo_patched_tail"] = o1.strip().splitlines()[-1:] if o1.strip() else []
         if RUN_TESTS:
-            jx = f"/tmp/seed/junit_{pid}_{sd.name}.xml"
+            jx = f"/tmp/seed/junit_{pid}_{PREFIX}{sd.name}.xml"
             sh(f"/venv/bin/python -m pytest -q -p no:cacheprovider --timeout=900 --continue-on-collection-errors --junitxml={jx} tests", cwd=wt, env=env)
             ok = {}
             try:
@@ -58,7 +62,7 @@ def one(wt: Path):
             except Exception as e:
                 r["tests_missing"] = [f"junit error {e}"]
             Path(jx).unlink(missing_ok=True)
-        rcv, ov = sh(f"/verif/vcheck --all --repo {wt}", cwd="/verif", env={"ODCVERIF_EVIDENCE_DIR": f"/tmp/seed/ev_{pid}_{sd.name}"})
+        rcv, ov = sh(f"/verif/vcheck --all --repo {wt}", cwd="/verif", env={"ODCVERIF_EVIDENCE_DIR": f"/tmp/seed/ev_{pid}_{PREFIX}{sd.name}"})
         flagged = {}
         cur = None
         for ln in ov.splitlines():
@@ -69,14 +73,14 @@ def one(wt: Path):
                 flagged[cur].append(ln.strip()[:160])
         r["flagged"] = flagged
         r["analysis_errors"] = [ln[:200] for ln in ov.splitlines() if ln.startswith("ANALYSIS-ERROR")]
-        sh(f"rm -rf /tmp/seed/ev_{pid}_{sd.name}")
+        sh(f"rm -rf /tmp/seed/ev_{pid}_{PREFIX}{sd.name}")
         sh("git checkout -- . ", cwd=wt)
         res.append(r)
     return res
 
 
 def main():
-    wts = [Path(f"/tmp/seed/{a}") for a in sys.argv[1:] if a.startswith("C")] or sorted(p for p in Path("/tmp/seed").glob("C??") if (p / "seed_out").is_dir())
+    wts = [Path(f"/tmp/seed/{a}") for a in sys.argv[1:] if a.startswith("C")] or sorted(p for p in Path("/tmp/seed").glob("C??") if (p / SEED_OUT).is_dir())
     allres = []
     with ThreadPoolExecutor(8) as ex:
         for rs in ex.map(one, wts):
